@@ -135,6 +135,24 @@ def nObservedPlates (s : Screen) : Nat := s.uniquePlateIds.countP (fun p => plat
 
 def nPlates (s : Screen) : Nat := s.uniquePlateIds.length
 
+/-! ### `Screen.combine` / `Screen.concat` (a fresh `Screen(...)` on the concatenated rows, no mappings) -/
+
+/-- `Screen.combine(self, other)`: control names must agree (`ValueError`), `np.concatenate` of the two
+    `(n, arity)` tables needs equal arity (`ValueError`), then `Screen(...)` on the concatenated rows,
+    observations and masks -- so the constructor's per-plate check runs on the union. -/
+def combine (a b : Screen) : Except Err Screen :=
+  if a.ctrl != b.ctrl then .error .valueError
+  else if a.arity != b.arity then .error .valueError
+  else mk? { ctrl := a.ctrl, arity := a.arity, tnames := a.tnames ++ b.tnames, tdoses := a.tdoses ++ b.tdoses,
+             snames := a.snames ++ b.snames, pnames := a.pnames ++ b.pnames, obs := some (a.obs ++ b.obs),
+             mask := some (a.mask ++ b.mask), tmap := none, smap := none }
+
+/-- `Screen.concat(screens)`: empty list `ValueError`, one screen is returned as it is, otherwise a left fold
+    of `combine` -/
+def concat : List Screen → Except Err Screen
+  | [] => .error .valueError
+  | s :: rest => rest.foldlM combine s
+
 /-! ### operation histories -/
 
 /-- one step of the simulation lifecycle on a single screen -/
